@@ -69,8 +69,13 @@ func (e *Engine) background(d *decls) []*Term {
 			}
 			iface := it.Underlying().(*types.Interface)
 			for i, t := range tags.types {
-				if _, isPseudo := t.(*pseudoType); isPseudo {
-					out = append(out, Not(App(fname, BoolS, IntLit(int64(i+1)))))
+				if pt, isPseudo := t.(*pseudoType); isPseudo {
+					f := App(fname, BoolS, IntLit(int64(i+1)))
+					if pseudoImplements(pt, it) {
+						out = append(out, f)
+					} else {
+						out = append(out, Not(f))
+					}
 					continue
 				}
 				out = append(out, Eq(App(fname, BoolS, IntLit(int64(i+1))), BoolLit(types.Implements(t, iface))))
